@@ -158,6 +158,11 @@ pub fn gen_straddle_plan(r: &mut Rng, ints_only: bool) -> Plan {
     p
 }
 
+/// for C09: a giant column definition (variant 9 of the C04 generator)
+pub fn gen_c04_giant_definition(r: &mut Rng) -> Plan {
+    gen_c04(r, Tier::Quick, 9)
+}
+
 /// for C13: an error reported (finish_error) behind a giant row that the shim left open
 pub fn gen_c04_error_after_open_giant_row(r: &mut Rng) -> Plan {
     for _ in 0..200 {
@@ -372,37 +377,65 @@ fn gen_c04(r: &mut Rng, tier: Tier, job: u64) -> Plan {
             });
         }
         _ => {
-            // giant column name: definition packet = fixed 4+1+1+prefix(table)+1+prefix(name)+name+1+13
-            let name_len = (target - 30).max(0) as u32;
-            cmds.push(Cmd {
-                seq: 0,
-                kind: CmdKind::Query(Blob::lit(b"giant coldef")),
-                act: Act::Program(Program {
-                    units: vec![Unit::Rows(RowsUnit {
-                        cols: vec![ColSpec {
-                            table: Blob::lit(b"t"),
-                            name: Blob::Gen {
-                                len: name_len + r.below(12) as u32,
-                                salt: r.next() as u32,
-                                ascii: true,
-                            },
-                            coltype: 0xfd,
-                            flags: 0,
-                        }],
-                        rows: vec![vec![Cell::Str(Blob::lit(b"x"))]],
-                        write_row: true,
-                        last_row_ended: true,
-                        close: Close::Finish,
-                        contra: None,
-                        recover: None,
-                    })],
-                    end: End::Implicit,
-                    ret_err: None,
-                    probe_cells: false,
-                    pull_params: None,
-                    pull_skip: 0,
-                }),
-            });
+            // giant column definition: packet = 4+1+1+prefix(table)+1+prefix(name)+name+1+13; the
+            // bulk sits in the column name, in the table name, or is shared by both (the packet
+            // boundary then falls inside either), in a resultset header or in a PREPARE reply
+            let bulk = (target - 30).max(0) as u32 + r.below(12) as u32;
+            let big = |r: &mut Rng, len: u32| Blob::Gen {
+                len,
+                salt: r.next() as u32,
+                ascii: true,
+            };
+            let (table, name) = match r.below(4) {
+                0 | 1 => (Blob::lit(b"t"), big(r, bulk)),
+                2 => (big(r, bulk), Blob::lit(b"c")),
+                _ => {
+                    let a = bulk / 2 - 100 + r.below(200) as u32;
+                    (big(r, a), big(r, bulk - a))
+                }
+            };
+            let col = ColSpec {
+                table,
+                name,
+                coltype: 0xfd,
+                flags: r.next() as u16,
+            };
+            let other = ColSpec {
+                table: Blob::lit(b"t"),
+                name: Blob::lit(b"after"),
+                coltype: 0x03,
+                flags: 0,
+            };
+            if r.chance(1, 3) {
+                // PREPARE reply: the giant definition among the parameters or the columns
+                let (params, cols) = if r.coin() { (vec![other.clone(), col], vec![other]) } else { (vec![other.clone()], vec![col, other]) };
+                cmds.push(Cmd {
+                    seq: 0,
+                    kind: CmdKind::Prepare(Blob::lit(b"giant definition")),
+                    act: Act::Prepare(PrepAct::Reply { id: 77, params, cols }),
+                });
+            } else {
+                cmds.push(Cmd {
+                    seq: 0,
+                    kind: CmdKind::Query(Blob::lit(b"giant coldef")),
+                    act: Act::Program(Program {
+                        units: vec![Unit::Rows(RowsUnit {
+                            cols: vec![col],
+                            rows: vec![vec![Cell::Str(Blob::lit(b"x"))]],
+                            write_row: true,
+                            last_row_ended: true,
+                            close: Close::Finish,
+                            contra: None,
+                            recover: None,
+                        })],
+                        end: End::Implicit,
+                        ret_err: None,
+                        probe_cells: false,
+                        pull_params: None,
+                        pull_skip: 0,
+                    }),
+                });
+            }
         }
     }
     cmds.push(Cmd {
